@@ -7,31 +7,56 @@ pinned reading of the source that the rig's parameter oracle (harness/rigs/agent
 import PrimaiteModel.Model.AgentsTap
 namespace Primaite.Agents
 
-/-- TAP001: every action runs on `current_host` (start node, or the C2 server during PAYLOAD); scan targets come from
-`network_knowledge`; C2 / payload parameters from the configured `COMMAND_AND_CONTROL` / `PAYLOAD` options; folder, file
-and application names are constants of the source. -/
-def Tap1.actionParams : List (String × List (String × String)) := [("node-folder-create", [("node_name", "self.current_host"), ("folder_name", "'downloads'")]),
-  ("node-file-create", [("node_name", "self.current_host"), ("folder_name", "'downloads'"), ("file_name", "'malware_dropper.ps1'"), ("force", "True")]),
-  ("node-file-access", [("node_name", "self.current_host"), ("folder_name", "'downloads'"), ("file_name", "'malware_dropper.ps1'")]),
-  ("node-application-install", [("node_name", "self.current_host"), ("application_name", "self.chosen_application")]),
-  ("node-nmap-ping-scan", [("source_node", "self.current_host"), ("target_ip_address", "self.network_knowledge.get('next_scan_target')"), ("show", "False")]),
-  ("node-application-install", [("node_name", "self.current_host"), ("application_name", "self.chosen_application")]),
-  ("configure-c2-beacon", [("node_name", "self.current_host"), ("**", "config")]),
-  ("node-application-execute", [("node_name", "self.current_host"), ("application_name", "self.chosen_application")]),
-  ("c2-server-ransomware-configure", [("node_name", "self.current_host"), ("server_ip_address", "self.target_ip"), ("payload", "'ENCRYPT'")]),
-  ("c2-server-data-exfiltrate", [("node_name", "self.current_host"), ("target_file_name", "self.payload_settings.get('target_file_name')"), ("target_folder_name", "self.payload_settings.get('target_folder_name')"), ("exfiltration_folder_name", "self.payload_settings.get('exfiltration_folder_name')"), ("target_ip_address", "self.payload_settings.get('target_ip_address')"), ("username", "self.payload_settings.get('target_username')"), ("password", "self.payload_settings.get('target_password')")]),
-  ("c2-server-ransomware-launch", [("node_name", "self.current_host")]),
-  ("node-nmap-ping-scan", [("source_node", "self.current_host"), ("target_ip_address", "self.network_knowledge.get('next_scan_target')"), ("show", "False")]),
-  ("node-nmap-port-scan", [("source_node", "self.current_host"), ("target_ip_address", "self.network_knowledge.get('target_ip')"), ("show", "False")]),
-  ("node-network-service-recon", [("source_node", "self.current_host"), ("target_ip_address", "self.network_knowledge.get('next_scan_target')"), ("target_port", "PORT_LOOKUP['POSTGRES_SERVER']"), ("target_protocol", "PROTOCOL_LOOKUP['TCP']"), ("show", "False")])]
-/-- TAP003: credentials come from `network_knowledge["credentials"][host]` (the configured starting knowledge, updated by
-successful password changes), the account-change fields from the configured `account_changes` entry being worked on,
-the ACL fields from the configured `malicious_acls[_current_acl]`; logins and remote commands run on `starting_node`. -/
-def Tap3.actionParams : List (String × List (String × String)) := [("node-account-change-password", [("node_name", "self.current_host"), ("username", "self._next_account_change['username']"), ("current_password", "self.network_knowledge['credentials'][self.current_host]['password']"), ("new_password", "self._next_account_change['new_password']")]),
-  ("node-session-remote-login", [("node_name", "self.starting_node"), ("username", "self.network_knowledge['credentials'][hostname]['username']"), ("password", "self.network_knowledge['credentials'][hostname]['password']"), ("remote_ip", "self.network_knowledge['credentials'][hostname]['ip_address']")]),
-  ("node-send-remote-command", [("node_name", "self.starting_node"), ("remote_ip", "self.network_knowledge['credentials'][hostname]['ip_address']"), ("command", "['service', 'user-manager', 'change_password', self._next_account_change['username'], self.network_knowledge['credentials'][hostname]['password'], self._next_account_change['new_password']]")]),
-  ("node-session-remote-login", [("node_name", "self.starting_node"), ("username", "self.network_knowledge['credentials'][hostname]['username']"), ("password", "self.network_knowledge['credentials'][hostname]['password']"), ("remote_ip", "self.network_knowledge['credentials'][hostname]['ip_address']")]),
-  ("node-send-remote-command", [("node_name", "self.starting_node"), ("remote_ip", "self.network_knowledge['credentials'][hostname]['ip_address']"), ("command", "['acl', 'add_rule', malicious_acl.permission, malicious_acl.protocol_name, str(malicious_acl.src_ip), str(malicious_acl.src_wildcard), malicious_acl.src_port, str(malicious_acl.dst_ip), str(malicious_acl.dst_wildcard), malicious_acl.dst_port, malicious_acl.position]")])]
+/-- TAP001: for every `self.chosen_action = name, {…}` in source order, the action name and per key the source expression
+— read off the one table that also defines the model's values (`Tap1.Kind.spec` in Model/AgentsTap.lean), so the key,
+the source expression and the value the model computes for it sit in one line.  (`**config` of `configure-c2-beacon` is
+expanded by the extractor from the local dict literal.) -/
+def Tap1.actionParams : List (String × List (String × String)) :=
+  Tap1.sourceOrder.map fun k => (k.name, k.spec.map fun p => (p.1, p.2.1))
+
+/-- TAP003: same, from `Tap3.Kind.spec`. -/
+def Tap3.actionParams : List (String × List (String × String)) :=
+  Tap3.sourceOrder.map fun k => (k.name, k.spec.map fun p => (p.1, p.2.1))
+
+/-- The dict literals of `TAP001.setup_agent` the parameter expressions read from, pinned: key ↦ source expression. -/
+def Tap1.c2Settings : List (String × String) :=
+  [("c2_server", "self.config.agent_settings.kill_chain.COMMAND_AND_CONTROL.c2_server_name"),
+   ("c2_server_ip_address", "self.config.agent_settings.kill_chain.COMMAND_AND_CONTROL.c2_server_ip"),
+   ("keep_alive_frequency", "self.config.agent_settings.kill_chain.COMMAND_AND_CONTROL.keep_alive_frequency"),
+   ("masquerade_protocol", "self.config.agent_settings.kill_chain.COMMAND_AND_CONTROL.masquerade_protocol"),
+   ("masquerade_port", "self.config.agent_settings.kill_chain.COMMAND_AND_CONTROL.masquerade_port"),
+   ("beacon_configured", "False")]
+def Tap1.payloadSettings : List (String × String) :=
+  [("target_file_name", "'database.db'"), ("target_folder_name", "'database'"),
+   ("exfiltration_folder_name", "self.config.agent_settings.kill_chain.PAYLOAD.exfiltration_folder_name"),
+   ("target_ip_address", "self.target_ip"),
+   ("target_username", "self.config.agent_settings.kill_chain.PAYLOAD.target_username"),
+   ("target_password", "self.config.agent_settings.kill_chain.PAYLOAD.target_password"),
+   ("corrupt", "self.config.agent_settings.kill_chain.PAYLOAD.corrupt"),
+   ("exfiltrate", "self.config.agent_settings.kill_chain.PAYLOAD.exfiltrate"),
+   ("continue_on_failed_exfil", "self.config.agent_settings.kill_chain.PAYLOAD.continue_on_failed_exfil")]
+/-- `network_knowledge` as `setup_agent` and `_network_knowledge_reset` build it (both must be this). -/
+def Tap1.networkKnowledge : List (String × String) :=
+  [("target_found", "False"), ("target_port", "PortStatus.UNKNOWN"), ("target_ip", "self.target_ip"),
+   ("next_scan_target", "self.config.agent_settings.kill_chain.PROPAGATE.network_addresses[0]"), ("live_hosts", "{}")]
+/-- `self.chosen_application = …` per stage method, and where `current_host` is assigned. -/
+def Tap1.chosenApplication : List (String × String) := [("_activate", "'ransomware-script'"), ("_c2c", "'c2-beacon'")]
+def Tap1.currentHost : List (String × String) :=
+  [("setup_agent", "self.starting_node"), ("_download", "self.starting_node"), ("_install", "self.starting_node"),
+   ("_activate", "self.starting_node"), ("_propagate", "self.starting_node"), ("_payload", "self.c2_settings['c2_server']")]
+def Tap3.currentHost : List (String × String) :=
+  [("setup_agent", "self.starting_node"), ("_planning", "self.starting_node"), ("_manipulation", "self.starting_node")]
+
+/-- `_select_start_node` / `_select_target_ip` (= `Agents.pick`): test, value when the test holds, value otherwise. -/
+def selectStartNode : List String :=
+  ["not self.config.agent_settings.starting_nodes", "self.starting_node = self.config.agent_settings.default_starting_node",
+   "self.starting_node = random.choice(self.config.agent_settings.starting_nodes)"]
+def selectTargetIp : List String :=
+  ["not self.config.agent_settings.target_ips", "self.target_ip = self.config.agent_settings.default_target_ip",
+   "self.target_ip = random.choice(self.config.agent_settings.target_ips)"]
+
+/-- Every assignment to `actions_concluded` under game/agent/scripted_agents: (file, function, value).  One writer. -/
+def concludedWriters : List (String × String × String) := [("abstract_tap.py", "_tap_outcome_handler", "True")]
 
 /-- Parameter names every `get_action` must accept, and the call made by `PrimaiteGame.apply_agent_actions`. -/
 def getActionSignature : List String := ["self", "obs", "timestep"]
